@@ -420,6 +420,7 @@ func (w *world) browser(c *client) {
 		}
 	}
 	gc := &gatedConn{Conn: conn, beforeWrite: gate("hs-send"), midWrite: gate("hs-mid"), beforeRead: gate("hs-await")}
+	gc.eachRead = func() { w.park(c, "hs-read:"+c.name, sched.Go) }
 	hc := &http.Client{Transport: &http.Transport{
 		DialContext: func(context.Context, string, string) (net.Conn, error) {
 			if dialled {
@@ -440,6 +441,7 @@ func (w *world) browser(c *client) {
 		w.setState(c, st, err.Error())
 		return
 	}
+	gc.established.Store(true)
 	ws.SetReadLimit(-1)
 	w.mu.Lock()
 	c.ws = ws
@@ -483,8 +485,9 @@ func (w *world) browser(c *client) {
 // server's response is read.
 type gatedConn struct {
 	net.Conn
-	beforeWrite, midWrite, beforeRead func()
-	wOnce, rOnce                      sync.Once
+	beforeWrite, midWrite, beforeRead, eachRead func()
+	wOnce, rOnce                                sync.Once
+	established                                 atomic.Bool
 }
 
 func (g *gatedConn) Write(p []byte) (n int, err error) {
@@ -503,8 +506,17 @@ func (g *gatedConn) Write(p []byte) (n int, err error) {
 	return n + m, err
 }
 
+// Read: until the handshake is over every read of the browser is a scheduling decision, so
+// that the browser's reaction to what it received (parse it, give up and close) never runs
+// concurrently with the server goroutine that is still writing.
 func (g *gatedConn) Read(p []byte) (int, error) {
-	g.rOnce.Do(g.beforeRead)
+	first := false
+	g.rOnce.Do(func() { first = true })
+	if first {
+		g.beforeRead()
+	} else if !g.established.Load() {
+		g.eachRead()
+	}
 	return g.Conn.Read(p)
 }
 
@@ -594,7 +606,7 @@ func runInBubble(hcfg harness.Config, idx int, tp *tape.Tape, dir string, res *h
 	w.cfg.extraStep = tp.Draw(40, "cfg.extrasteps")
 	sim.TimeWeight = 1
 	for _, cl := range []string{"req", "compile.wait", "compile.start", "compile.bcast", "bcast.res", "bcast.clients", "ws.admit", "ws.accept", "ws.register",
-		"wl.getres", "wl.wait", "close", "close.wait", "fs", "fsn", "kernel", "editor", "browser", "hs-send", "hs-mid", "hs-await"} {
+		"wl.getres", "wl.wait", "close", "close.wait", "fs", "fsn", "kernel", "editor", "browser", "hs-send", "hs-mid", "hs-await", "hs-read"} {
 		sim.ClassWeight[cl] = 2 + tp.Draw(10, "cfg.w."+cl)
 	}
 	sim.ClassWeight["operator"] = 0
@@ -823,7 +835,7 @@ func runInBubble(hcfg harness.Config, idx int, tp *tape.Tape, dir string, res *h
 		if n := len(c.frames); n > 0 {
 			last = fmt.Sprintf("v%d/w%d", c.frames[n-1].Main, c.frames[n-1].Imp)
 		}
-		cs = append(cs, fmt.Sprintf("%s state=%s frames=%d last=%s stalls=%d", c.name, c.state, len(c.frames), last, c.stalls))
+		cs = append(cs, fmt.Sprintf("%s state=%s frames=%d last=%s stalls=%d end=%q", c.name, c.state, len(c.frames), last, c.stalls, c.endErr))
 	}
 	w.mu.Unlock()
 	w.collectProbes()
@@ -888,7 +900,7 @@ func (w *world) biasHandshakes() {
 func (w *world) systemParkedAny() bool {
 	for _, k := range w.sim.ParkedKeys() {
 		switch {
-		case strings.HasPrefix(k, "browser:"), strings.HasPrefix(k, "editor:"), strings.HasPrefix(k, "operator:"), strings.HasPrefix(k, "kernel:"):
+		case strings.HasPrefix(k, "browser:"), strings.HasPrefix(k, "editor:"), strings.HasPrefix(k, "operator:"), strings.HasPrefix(k, "kernel:"), strings.HasPrefix(k, "hs-"):
 		default:
 			return true
 		}
